@@ -338,8 +338,10 @@ class Controller:
                     break
         self._reap()
         pr = self.send_proc()
-        self.emit({"c": "ctl", "op": "quiet", "tmo": self.select_timeout() if self.select_timeout() is not None else -1,
-                   "send": pr.state if pr else "none", "steps": n})
+        tmo = self.select_timeout()
+        rem = (pr.deadline - self.now) if (pr and tmo is not None and pr.deadline is not None) else (tmo if tmo is not None else -1)
+        self.emit({"c": "ctl", "op": "quiet", "tmo": tmo if tmo is not None else -1, "rem": rem,
+                   "send": pr.state if pr else "none", "steps": n, "noticed": getattr(self, "expect_noticed", 1)})
         return n
 
     def _reap(self):
